@@ -90,6 +90,19 @@ func (s *localServer) methods() []server.Method {
 			id := res.Message().AddCap(child)
 			return res.SetPtr(0, capnp.NewInterface(res.Segment(), id).ToPtr())
 		}),
+		mk(mGetCapAck, func(ctx context.Context, c *server.Call) error {
+			// like getcap, but delivery is acknowledged first, so the receive
+			// loop is free while the Return is being written
+			c.Ack()
+			res, err := c.AllocResults(capnp.ObjectSize{DataSize: 8, PointerCount: 1})
+			if err != nil {
+				return err
+			}
+			atomic.AddInt64(&s.children, 1)
+			child := capnp.NewClient(server.New(s.methods(), nil, nil, &server.Policy{MaxConcurrentCalls: 64, AnswerQueueSize: 64}))
+			id := res.Message().AddCap(child)
+			return res.SetPtr(0, capnp.NewInterface(res.Segment(), id).ToPtr())
+		}),
 		mk(mCallCap, func(ctx context.Context, c *server.Call) error {
 			p, err := c.Args().Ptr(0)
 			if err != nil {
